@@ -14,6 +14,7 @@ type Sink struct {
 	Calls     int
 	FailAt    int  // -1: never
 	Short     bool // accept a strict, non-empty part of the failing write and report io.ErrShortWrite
+	Silent    bool // with Short: report the short count with a nil error (a destination that just stops taking bytes)
 	Permanent bool // every later call fails too
 	Fired     bool
 	CurCall   int // set by the driver: index of the API call in progress
@@ -33,6 +34,9 @@ func (s *Sink) Write(p []byte) (int, error) {
 			if s.Short && len(p) > 1 {
 				n = len(p) / 2
 				err = io.ErrShortWrite
+				if s.Silent {
+					err = nil
+				}
 			}
 			s.Buf = append(s.Buf, p[:n]...)
 			s.PrefixLen = len(s.Buf)
